@@ -507,8 +507,11 @@ async fn m_loc_answers(calls: &[(Option<String>, String)], default: &str, tables
     let a = passage_adapters::FixedLocalizationAdapter::new(default.to_string(), messages);
     use passage_adapters::localization::LocalizationAdapter;
     let mut out = vec![];
+    let a = std::sync::Arc::new(a);
     for (l, k) in calls {
-        let r = a.localize(l.as_deref(), k, &[]).await.unwrap_or_default();
+        // the adapter is third-party to the harness: a panic in it (which also ended the handler) must not end the runner
+        let (a2, l2, k2) = (a.clone(), l.clone(), k.clone());
+        let r = tokio::spawn(async move { a2.localize(l2.as_deref(), &k2, &[]).await.unwrap_or_default() }).await.unwrap_or_else(|_| "<localisation panicked>".to_string());
         out.push((l.clone(), k.clone(), r));
     }
     out
